@@ -1218,7 +1218,7 @@ func (a *analyzer) call(fr *frame, c *ast.CallExpr, st *state) {
 		if id, ok := f.X.(*ast.Ident); ok {
 			if o, ok := fr.env[id.Name]; ok {
 				if m := a.methodIn(fr, o, f.Sel.Name); m != nil {
-					a.args(fr, c, st, true)
+					a.args(fr, c, st, false, false)
 					env := map[string]objRef{}
 					a.bindParams(m, env, o.key, c.Args, fr)
 					out := a.runFunc(m, env, st)
@@ -1228,18 +1228,18 @@ func (a *analyzer) call(fr *frame, c *ast.CallExpr, st *state) {
 				if _, isField := o.typ.fields[f.Sel.Name]; isField {
 					// call of a function stored in a field
 					a.expr(fr, f, st)
-					a.args(fr, c, st, false)
+					a.args(fr, c, st, false, true)
 					return
 				}
 				// method we do not analyse inline (other package): opaque, the object is shared
-				a.args(fr, c, st, false)
+				a.args(fr, c, st, false, true)
 				st.escaped[o.key] = true
 				return
 			}
 		}
 		// pkg.Func(...) or expr.Method(...)
 		a.expr(fr, f.X, st)
-		a.args(fr, c, st, syncCallers[f.Sel.Name])
+		a.args(fr, c, st, syncCallers[f.Sel.Name], !syncCallers[f.Sel.Name])
 	case *ast.Ident:
 		switch f.Name {
 		case "delete":
@@ -1249,24 +1249,25 @@ func (a *analyzer) call(fr *frame, c *ast.CallExpr, st *state) {
 				return
 			}
 		case "panic":
-			a.args(fr, c, st, false)
+			a.args(fr, c, st, false, false)
 			return
 		}
 		if m := fr.fi.pkg.funcs[f.Name]; m != nil && isFuncObj(f) {
-			a.args(fr, c, st, true)
+			a.args(fr, c, st, false, false)
 			env := map[string]objRef{}
 			a.bindParams(m, env, "", c.Args, fr)
 			out := a.runFunc(m, env, st)
 			st.held, st.escaped = out.held, out.escaped
 			return
 		}
-		a.args(fr, c, st, isBuiltin(f.Name))
+		a.args(fr, c, st, false, !isBuiltin(f.Name))
 	case *ast.FuncLit:
-		a.args(fr, c, st, true)
+		// func(){...}() : called right here
+		a.args(fr, c, st, false, false)
 		a.funcLit(fr, f, st, true, "fn")
 	default:
 		a.expr(fr, c.Fun, st)
-		a.args(fr, c, st, false)
+		a.args(fr, c, st, false, true)
 	}
 }
 
@@ -1282,17 +1283,19 @@ var builtins = map[string]bool{"len": true, "cap": true, "append": true, "make":
 
 func isBuiltin(n string) bool { return builtins[n] }
 
-// args: evaluate the arguments; when the callee is not analysed inline (local == false)
-// tracked objects passed to it escape and function literals start with the empty lockset.
-func (a *analyzer) args(fr *frame, c *ast.CallExpr, st *state, local bool) {
+// args: evaluate the arguments.  inlineLits: function literals among them are called
+// synchronously by the callee with the caller's locks (sync.Once.Do, sort.Slice, ...);
+// otherwise they start with the empty lockset.  escape: the callee is not analysed
+// inline, so tracked objects passed to it are shared from here on.
+func (a *analyzer) args(fr *frame, c *ast.CallExpr, st *state, inlineLits, escape bool) {
 	for _, arg := range c.Args {
 		if fl, ok := arg.(*ast.FuncLit); ok {
-			a.funcLit(fr, fl, st, local, "fn")
+			a.funcLit(fr, fl, st, inlineLits, "fn")
 			continue
 		}
 		a.expr(fr, arg, st)
 	}
-	if !local {
+	if escape {
 		for _, k := range a.passedObjects(fr, c.Args) {
 			st.escaped[k] = true
 		}
